@@ -143,6 +143,25 @@ Proof.
     + unfold recover, rollback. cbn [k_journal]. rewrite disk_pos_reapply. unfold disk_pos, newest. cbn [k_ltx]. rewrite rev_app_distr. reflexivity.
 Qed.
 
+(* ---------- a drop ---------- *)
+Theorem drop_crash_atomic (d0 : disk) (f : ltxrec) (k : nat) :
+  Consistent d0 -> l_commit f = 0 ->
+  let d := krun d0 (firstn k (drop_steps f)) in
+  (same_image (k_db (recover d)) (k_db d0) /\ disk_pos (recover d) = disk_pos d0) \/
+  (f_size (k_db (recover d)) = 0 /\ k_journal (recover d) = None /\ disk_pos (recover d) = (l_max f, l_post f)).
+Proof.
+  intros HC Hc d. pose proof HC as [Hj _].
+  destruct k as [|k].
+  - left. unfold d. cbn [firstn krun fold_left]. split; [apply recover_consistent; exact HC|].
+    unfold recover, rollback. rewrite Hj. apply disk_pos_reapply.
+  - right.
+    assert (k_journal d = None /\ k_ltx d = k_ltx d0 ++ [f]) as [Hjd Hl].
+    { unfold d, drop_steps. destruct k as [|[|k]]; cbn [firstn krun fold_left kstep k_journal k_ltx];
+        try rewrite firstn_nil; cbn [fold_left k_journal k_ltx]; split; try reflexivity; exact Hj. }
+    unfold recover, rollback. rewrite Hjd. unfold reapply, newest. rewrite Hl, rev_app_distr. cbn [rev app k_db k_journal truncate f_size].
+    split; [exact Hc|]. split; [exact Hjd|]. unfold disk_pos, newest. cbn [k_ltx]. rewrite ?Hl, rev_app_distr. reflexivity.
+Qed.
+
 (* ---------- a local rollback-journal commit ---------- *)
 Definition writes_of (l : list cstep) : list (N * pg) :=
   flat_map (fun s => match s with KWritePage p q => [(p, q)] | _ => [] end) l.
